@@ -284,6 +284,8 @@ async def execute(gen, ops, w: SockWorld, run: Run, counters=None):
                 run.sends.append(rec)
                 return do_send(msg, rec, pol)
             (w.on_connect_hooks if o == "on_connect_send" else w.on_disconnect_hooks).append(hook)
+        elif o == "odd_subs":
+            w.add_odd_subscribers()
         elif o == "slow_conn":
             # the next connected=True notification takes op[1] seconds in a subscriber
             w.conn_delays.append(op[1])
